@@ -172,7 +172,9 @@ Definition sql_join_select (tms : option terms) (want : option (list string)) (j
            (a b : table) : option table :=
   let l := match tms with Some l => l | None => [] end in
   match select_keys false tms want with
-  | None => None                                              (* SELECT * over a join: not written by the generator *)
+  | None =>                                                   (* SELECT * over a join (nothing of it is requested): every column of both operands *)
+      let ext (cs : list string) (r : option row) := match r with Some x => x | None => map (fun _ => VNull) cs end in
+      Some (mktable (cols a ++ cols b) (map (fun p => ext (cols a) (fst p) ++ ext (cols b) (snd p)) (join_pairs jt on a b)))
   | Some ks =>
       let items := map (item_of_terms l) ks in
       if ambiguous (cols a) (cols b) items then None
